@@ -32,10 +32,19 @@ package log
 //@   trusted
 //@   modifies fs
 //@   ensures result1 != nil ==> result0 == nil
-//@   ensures result1 == nil ==> result0 != nil && isfresh(result0) && result0.prevIndex == prevIndex && result0.prev == nil && result0.next == nil && result0.file != nil && isfresh(result0.file) && isfresh(arrof(result0.file.Data)) && SegGood(result0) && result0.synced == result0.n && fs[lfile(dir, prevIndex)]
+//@   ensures result1 == nil ==> result0 != nil && isfresh(result0) && result0.prevIndex == prevIndex && result0.prev == nil && result0.next == nil && result0.file != nil && isfresh(result0.file) && isfresh(arrof(result0.file.Data)) && SegGood(result0) && result0.synced == result0.n && fs[lfile(dir, prevIndex)] && result0.file.name == lfile(dir, prevIndex)
 //@   ensures result1 == nil && !old(fs[lfile(dir, prevIndex)]) ==> result0.n == 0 && result0.size == 0 && len(result0.file.Data) == opt.SegmentSize
 //@   ensures forall(p, p != lfile(dir, prevIndex) ==> fs[p] == old(fs[p]))
 //@   ensures result1 != nil ==> fs[lfile(dir, prevIndex)] == old(fs[lfile(dir, prevIndex)])
+
+// No stale segment file: every <k>.log in the directory belongs to a segment of the list (ghost witness
+// Log.gidx: prevIndex -> segment). A stale <k>.log would be mapped as if it were new when the log rolls
+// over or is reset to index k. Established by log.Open (dangling segments are removed); stated as a
+// precondition where a new segment file is created.
+//@ ghost field Log.gidx map[uint64]uint64
+//@ pure SName(x *segment) string = x.file.name
+//@ pure NoStale(l *Log) bool = forall(j, fs[lfile(l.dir, j)] ==> l.gidx[j] != 0 && l.gin[l.gidx[j]] && SName(l.gidx[j]) == lfile(l.dir, j) && SP(l.gidx[j]) == j)
+//@ axiom [T-std.segment-names] forall(d, i, j, lfile(d, i) == lfile(d, j) ==> i == j)
 
 //@ func (*Log).Commit
 //@   props C06 C10
@@ -60,3 +69,51 @@ package log
 //@   ensures [C13.append-others-kept] forall(x, old(l.gin[x]) && x != old(ref(l.last)) ==> l.gin[x] && SegKept(x))
 //@   ensures [C14.roll-commits] result0 == nil && l.last != old(l.last) ==> old(l.last).synced == old(l.last).n && l.last.n == 1
 //@   ghostcode after call connect 1: l.gin[ref(s)] := true
+
+// ---------------------------------------------------------------------------
+// closing and deleting segment files
+
+//@ func (*mmap.File).Name
+//@   inline
+// T-mmap (trusted): unmapping touches neither the bytes nor the durable image
+//@ func (mmap.File).Close
+//@   trusted
+//@   ensures true
+
+//@ func (*segment).close
+//@   props C06 C10
+//@   requires SegGood(s)
+//@   modifies s.synced, contents(s.file.Data), s.file.gdur
+//@   ensures [C14.close-syncs] result0 == nil ==> s.synced == s.n && hdrDur(s) == s.n
+//@   ensures [C14.close-keeps-good] SegGood(s) && s.n == old(s.n) && s.size == old(s.size)
+//@   crash_inv [C14.close-crash-ok] CrashOK0(s)
+
+//@ func (*segment).remove
+//@   requires s.file != nil
+//@   modifies fs
+//@   ensures result0 == nil ==> !fs[s.file.name]
+//@   ensures result0 != nil ==> fs[s.file.name] == old(fs[s.file.name])
+//@   ensures forall(p, p != s.file.name ==> fs[p] == old(fs[p]))
+
+//@ func (*segment).closeAndRemove
+//@   props C06 C10
+//@   requires SegGood(s)
+//@   modifies s.synced, contents(s.file.Data), s.file.gdur, fs
+//@   ensures [C13.remove-file] result0 == nil ==> !fs[s.file.name]
+//@   ensures forall(p, p != s.file.name ==> fs[p] == old(fs[p]))
+//@   ensures [C14.close-keeps-good] SegGood(s) && s.n == old(s.n) && s.size == old(s.size)
+
+
+// RemoveLTE: whole segments below the bound go away, from the front; nothing else moves (C09, C13)
+//@ pure SegSame(x *segment) bool = x.n == old(x.n) && x.prevIndex == old(x.prevIndex) && x.size == old(x.size) && x.file == old(x.file) && x.next == old(x.next)
+//@ func (*Log).RemoveLTE
+//@   props C02 C03 C04 C06 C10
+//@   requires LogShape(l) && l.index == nil
+//@   modifies l.first, l.gin, segment.synced, segment.next, segment.prev, elems(uint8), mmap.File.gdur, fs
+//@   ensures [C13.remove-lte-shape] LogShape(l) && l.last == old(l.last) && LogLast(l) == old(LogLast(l))
+//@   ensures [C13+C09.remove-lte-bound] LogPrev(l) >= old(LogPrev(l)) && (LogPrev(l) > old(LogPrev(l)) ==> LogPrev(l) <= i)
+//@   ensures [C13+C09.remove-lte-kept] forall(x, l.gin[x] ==> old(l.gin[x]) && SegSame(x))
+//@   ensures [C14+C09.remove-lte-commits-first] result0 == nil ==> forall(x, l.gin[x] && SN(x) > 0 ==> SSy(x) == SN(x))
+//@   ghostcode after call disconnect 1: l.gin[ref(s)] := false
+//@   loop 1 invariant LogShape(l) && l.last == old(l.last) && forall(x, l.gin[x] ==> old(l.gin[x]) && SegSame(x)) && l.first.prevIndex >= old(l.first.prevIndex) && (l.first.prevIndex > old(l.first.prevIndex) ==> l.first.prevIndex <= i)
+//@   loop 1 invariant forall(x, l.gin[x] && SN(x) > 0 ==> SSy(x) == SN(x))
